@@ -8,3 +8,7 @@ import Bp7.Props.C02
 #print axioms Bp7.C02.golden_reference
 #print axioms Bp7.C02.golden_model
 #print axioms Bp7.encHead_eq_spec
+#print axioms Bp7.C02.encode_eq_spec
+#print axioms Bp7.C02.crcAgree
+#print axioms Bp7.CrcAgreeProof.crc16_agree
+#print axioms Bp7.CrcAgreeProof.crc32c_agree
